@@ -693,7 +693,33 @@ def _outer_functions(m):
     yield from rec(m.tree.body, '', False)
 
 
+def _is_noise(st):
+    """statements without any effect on the properties: `pass` and debug-level log lines"""
+    if isinstance(st, ast.Pass):
+        return True
+    if isinstance(st, ast.Expr) and isinstance(st.value, ast.Call) and isinstance(st.value.func, ast.Attribute) \
+            and st.value.func.attr == 'debug' and isinstance(st.value.func.value, ast.Name) \
+            and st.value.func.value.id in ('_logger', 'logger', 'logging'):
+        return True
+    return False
+
+
+def strip_noise(tree):
+    """Drop `pass` and `_logger.debug(...)` statements from statement lists that keep at least one other statement, so
+    that position-bound clauses (first statement, exact statement list) are not disturbed by them."""
+    for node in ast.walk(tree):
+        for fld in ('body', 'orelse', 'finalbody'):
+            b = getattr(node, fld, None)
+            if isinstance(b, list) and len(b) > 1 and all(isinstance(x, ast.stmt) for x in b):
+                keep = [x for x in b if not _is_noise(x)]
+                if keep and len(keep) != len(b):
+                    b[:] = keep
+
+
 def canonicalise_locals(m):
+    if not getattr(m, '_noise_stripped', False):
+        strip_noise(m.tree)
+        m._noise_stripped = True
     pinned = _pinned_order()
     if not pinned:
         return
